@@ -91,10 +91,10 @@ class ProgGen:
         if text and self.lines and self.r.random() < 0.03:
             # comment-only lines at any column (0, the block's indent, deeper) and trailing comments never change the program
             col = self.r.choice([0, 0, 4 * self.ind, 4 * self.ind + 4, max(0, 4 * self.ind - 4), 1])
-            self.lines.append(" " * col + self.r.choice(["# note", "#", "# TODO: tune", "#led.on()", "# while True:"]))
+            self.lines.append(" " * col + self.r.choice(["# note", "#", "# TODO: tune", "#led.on()", "# while True:", "# open (bracket", "# [", "# it's", "# \"", "# x = {"]))
             self.feat("comment-line")
         if text and self.r.random() < 0.03 and '"' not in text and "'" not in text:
-            text = text + self.r.choice(["  # trailing", " # x = 1", "  #"])
+            text = text + self.r.choice(["  # trailing", " # x = 1", "  #", "  # (unclosed", " # a[0", "  # it's"])
             self.feat("trailing-comment")
         self.lines.append(("    " * self.ind + text) if text else "")
 
